@@ -7,6 +7,9 @@
 //	dispatch  <json>                         plan.Dispatch accept / reject class on a request shape (empty storage)
 //	par       <dataset json> <request json>  standalone: measureQueryProcessor.Rev with the flag off, then on
 //	dist      <dataset json> <request json>  liaison + data nodes in-process: proto wire vs raw-frame wire
+//	spar      <dataset json> <query json>    stream: row path vs vectorized path over real tsTable parts
+//	tpar      ...                            trace ordered query phase 1: push path vs pull path over real sidx
+//	sresp     <chunks>                       vtrace.SidxResponseIterator over a chunk list
 //
 // See frame.go / parity.go in this directory.
 package main
@@ -38,6 +41,12 @@ func handle(f []string) string {
 		return parityOp(f, true)
 	case "smerge":
 		return sortedMergeOp(f)
+	case "spar":
+		return streamParity(f)
+	case "tpar":
+		return traceParity(f)
+	case "sresp":
+		return sidxRespIter(f)
 	}
 	return "bad-op"
 }
@@ -60,6 +69,7 @@ func main() {
 	}
 	defer func() {
 		closeDataset()
+		closeStream()
 		_ = os.RemoveAll(scratch)
 	}()
 	_ = filepath.Join
